@@ -17,6 +17,17 @@ SIM_NOTE = ("Trusted base: the simulated kernel / psutil.Popen fake "
             "EPERM, job-control stops. Search never proves absence.")
 
 TABLE = {
+ "C18": dict(
+  engine="E1-simworld", category="exploration", design_ref="DESIGN.md §4 C18",
+  technique="exhaustive table (every signal name x spelling x acceptor) + Hypothesis-generated near-miss designations + generated signal/kill requests addressing own, foreign, unrelated and dead pids on a simulated kernel whose signal log is compared with the addressed set derived from its process tree",
+  text=("All spellings of every member of signal.Signals are pushed through "
+        "the five acceptors (exhaustive); mutated near-miss strings must be "
+        "refused by each; in SimWorld, signal/kill requests with pid, "
+        "childpid, children, recursive drawn from workers, descendants, other "
+        "watchers, unrelated and dead pids must only ever signal workers of "
+        "the named watcher or their descendants, with the designated number "
+        "and the exact addressed set."),
+  note=SIM_NOTE + " os.kill is globally routed to the simulated kernel (pids above pid_max), so a stray signal is recorded, never executed."),
  "C13": dict(
   engine="E1-simworld", category="exploration", design_ref="DESIGN.md §4 C13",
   technique="property-based testing with a constructive oracle: the expected argv is generated first and encoded as cmd/args with random quoting and variable references of known value (Process.format_args must decode it); plus generated SimWorld histories checking cwd/env/wid of every captured process-creation call",
